@@ -626,7 +626,7 @@ def run_one(ctx, m, case, whole=False, second=True, keyclass=None, variant=None,
     for sig, what in bad:
         repro = None
         if sig not in ctx.violations:
-            repro = make_repro(snap, case) if variant is None else make_variant_repro(case)
+            repro = make_repro(snap, case) if variant is None else make_variant_repro(case, ctx.seed)
         ctx.violation(sig, what + (f" [{variant}]" if variant else ""), case, repro=repro)
     if bad:
         return ("bad", tuple(sorted(s for s, _ in bad))), sigs
@@ -635,12 +635,79 @@ def run_one(ctx, m, case, whole=False, second=True, keyclass=None, variant=None,
     return ("ok", obs), sigs
 
 
-def make_variant_repro(case):
-    return (
-        "# variant case: re-run with  cd /verif && ./check C16 --replay <this file>\n"
-        "# (mc.props.c16.materialise(case, seed, scratch) rebuilds the molecule through the same representation / history)\n"
-        f"case = {case!r}\n"
-    )
+def make_variant_repro(case, seed=0):
+    """self-contained snippet for an environment reached through a representation / a history."""
+    if case.get("kind") != "environment":
+        return f"# whole molecule {case!r}: load it as in the plain repro, write it to a library / pickle it, read it back, call add_implicit_hydrogens()\n"
+    rep = case.get("rep", "members")
+    c = dict(case)
+    c["nbrs"] = [tuple(x) for x in case["nbrs"]]
+    snap = snapshot(build(c, seed, rep="plain" if rep == "plain" else "members"))
+    k = len(c["nbrs"])
+    L = ["import pickle, tempfile, numpy as np, molli as ml", "from molli.chem import Atom, Bond, Molecule, AtomType, BondType", "atoms = ["]
+    for d, h in zip(snap["desc"], snap["hints"]):
+        att = f", attrib={{{HINT!r}: {h}}}" if h is not None else ""
+        if rep == "plain":
+            L.append(f"    Atom({d[0]}, atype={d[3]}, formal_charge=np.int64({int(d[6])}), formal_spin=np.int64({int(d[7])}){att}),")
+        else:
+            L.append(f"    Atom({d[0]}, atype=AtomType({d[3]}), formal_charge={d[6]}, formal_spin={d[7]}{att}),")
+    L += ["]", "m = Molecule(atoms, copy_atoms=False)", f"m.coords = np.array({np.round(snap['coords'], 6).tolist()})"]
+    for i, j, bt, _, fo in snap["bdesc"]:
+        t = str(bt) if rep == "plain" else f"BondType({bt})"
+        L.append(f"m.append_bond(Bond(atoms[{i}], atoms[{j}], btype={t}, f_order={fo}))")
+    if rep == "mlib":
+        L += ["p = tempfile.mkdtemp() + '/x.mlib'", "lib = ml.MoleculeLibrary(p, readonly=False, overwrite=True)", "with lib.writing(): lib['x'] = m", "lib = ml.MoleculeLibrary(p)", "with lib.reading(): m = lib['x']"]
+    elif rep == "clib":
+        L += ["p = tempfile.mkdtemp() + '/x.clib'", "ens = ml.ConformerEnsemble(m, n_conformers=1); ens._coords[0] = m.coords", "lib = ml.ConformerLibrary(p, readonly=False, overwrite=True)", "with lib.writing(): lib['x'] = ens", "lib = ml.ConformerLibrary(p)", "with lib.reading(): m = ml.Molecule(lib['x'][0])"]
+    elif rep == "pickle":
+        L += ["m = pickle.loads(pickle.dumps(m))"]
+    hist = case.get("history")
+    if hist:
+        q, e = hist["query"], hist["edit"]
+        if q == "neighbour-queries":
+            L.append("for a in list(m.atoms): m.bonded_valence(a); m.n_bonds_with_atom(a); list(m.connected_atoms(a))")
+        elif q == "earlier-call":
+            L.append("m.add_implicit_hydrogens()")
+
+        def bt_text(name, as_int=False):
+            t, fo = BT[name]
+            return (str(int(t)) if as_int else f"BondType({int(t)})"), fo
+
+        if e[0] == "connect_like":
+            L.append("ref = Molecule(m)")
+            for n, (_, name) in enumerate(c["nbrs"]):
+                t, fo = bt_text(_shifted(name, e[1]))
+                L.append(f"b = ref.lookup_bond(ref.atoms[0], ref.atoms[{n + 1}]); b.f_order = {fo if t.endswith('(99)') else 'b.f_order'}; b.btype = {t}")
+            L.append("m.connect_like(ref)")
+        elif e[0] == "connect_like-fewer-bonds":
+            L += ["ref = Molecule(m)", "ref.del_bond(ref.lookup_bond(ref.atoms[0], ref.atoms[1]))", "m.connect_like(ref)"]
+        elif e[0] in ("del_bond+connect", "del_bond"):
+            L.append("m.del_bond(m.bonds[0])")
+            if e[0] == "del_bond+connect":
+                t, fo = bt_text(_shifted(c["nbrs"][0][1], e[1]))
+                L.append(f"m.connect(m.atoms[0], m.atoms[1], btype={t}, f_order={fo})")
+        elif e[0] in ("btype-assigned", "btype-assigned-int"):
+            t, fo = bt_text(_shifted(c["nbrs"][0][1], e[1]), as_int=e[0].endswith("int"))
+            if t in ("99", "BondType(99)"):
+                L.append(f"m.bonds[0].f_order = {fo}")
+            L.append(f"m.bonds[0].btype = {t}")
+        elif e[0] == "f_order-assigned":
+            L.append(f"m.bonds[0].f_order = {e[1]}")
+        elif e[0] == "formal_charge-assigned":
+            L.append(f"m.atoms[0].formal_charge = {e[1]}")
+        elif e[0] == "formal_spin-assigned":
+            L.append(f"m.atoms[0].formal_spin = {e[1]}")
+        elif e[0] == "hint-added":
+            L.append(f"m.atoms[0].attrib[{HINT!r}] = {e[1]}")
+        elif e[0] == "hint-removed":
+            L.append(f"m.atoms[0].attrib.pop({HINT!r}, None)")
+    L += [
+        "n = m.n_atoms",
+        "print('bonds before the call:', [(m.get_atom_index(b.a1), m.get_atom_index(b.a2), int(b.btype), b.f_order) for b in m.bonds])",
+        "m.add_implicit_hydrogens()",
+        "print('added', m.n_atoms - n, 'hydrogens on atoms', [m.get_atom_index(b.a1) for b in m.bonds if m.get_atom_index(b.a2) >= n]); print(m.coords[n:])",
+    ]
+    return "\n".join(L) + "\n"
 
 
 # =================================================================================================
